@@ -1,8 +1,9 @@
 SPECIFICATION Spec
 CONSTANTS
-  Threads = {t1, t2, t3}
+  Threads = {t1, t2}
   Keys = {k1, k2}
   Locked = TRUE
-  OpsPerThread = 2
+  OpSet = {"Set", "SetToTop", "Update", "Get", "Has", "Len", "Each", "Map"}
+  OpsPerThread = 3
 INVARIANTS MutualExclusion OrderIsDomain NoLostUpdate EachConsistent
 CHECK_DEADLOCK TRUE
